@@ -41,6 +41,28 @@ type Stim struct {
 	// AckPong: on datagram connections the peer answers the library's pings (empty CON) with an empty ACK of the same
 	// message ID instead of a RST - it acknowledges them; either way the ping was answered
 	AckPong bool `json:"ackPong"`
+	// Pipelined: on stream connections (plain inactivity monitor) the peer's bytes never end on a message boundary: every
+	// chunk carries the rest of the previous frame, a whole frame and the first two bytes of the next one
+	Pipelined bool `json:"pipelined"`
+}
+
+// pipeline turns frames into chunks that end in the middle of the next frame (an extra request frame per chunk, completed by
+// the next chunk - one more message from the peer at the same instant).
+type pipeline struct {
+	on   bool
+	n    int
+	tail []byte
+}
+
+func (p *pipeline) chunk(frame []byte) []byte {
+	if !p.on {
+		return frame
+	}
+	p.n++
+	next := conns.Frame(int(codes.GET), []byte{0x7B, byte(p.n)}, message.Options{{ID: message.URIPath, Value: []byte("x")}}, nil)
+	out := append(append(append([]byte(nil), p.tail...), frame...), next[:2]...)
+	p.tail = next[2:]
+	return out
 }
 
 type Obs struct {
@@ -235,6 +257,7 @@ func runTCP(st Stim) Trace {
 	}
 	t := conns.NewTCP(nil, tcpclient.WithInactivityMonitor(mon))
 	defer t.Close()
+	pl := &pipeline{on: st.Pipelined && !st.KeepAlive}
 	pingToks := [][]byte{}
 	off := 0
 	scan := func() {
@@ -261,22 +284,22 @@ func runTCP(st Stim) Trace {
 			tok := []byte{0x7A, byte(n)}
 			switch e.G { // every kind of message is "a message received from the peer"
 			case 1:
-				t.Feed(conns.Frame(int(codes.POST), tok, message.Options{{ID: message.URIPath, Value: []byte("x")}}, []byte("p")))
+				t.Feed(pl.chunk(conns.Frame(int(codes.POST), tok, message.Options{{ID: message.URIPath, Value: []byte("x")}}, []byte("p"))))
 			case 2:
-				t.Feed(conns.Frame(int(codes.Ping), tok, nil, nil)) // the peer's ping
+				t.Feed(pl.chunk(conns.Frame(int(codes.Ping), tok, nil, nil))) // the peer's ping
 			case 3:
-				t.Feed(conns.Frame(int(codes.Pong), tok, nil, nil)) // a pong nobody waits for
+				t.Feed(pl.chunk(conns.Frame(int(codes.Pong), tok, nil, nil))) // a pong nobody waits for
 			case 4:
-				t.Feed(conns.Frame(int(codes.CSM), tok, nil, nil))
+				t.Feed(pl.chunk(conns.Frame(int(codes.CSM), tok, nil, nil)))
 			case 5:
-				t.Feed(conns.Frame(int(codes.Content), tok, nil, []byte("r"))) // a response nobody waits for
+				t.Feed(pl.chunk(conns.Frame(int(codes.Content), tok, nil, []byte("r")))) // a response nobody waits for
 			default:
-				t.Feed(conns.Frame(int(codes.GET), tok, message.Options{{ID: message.URIPath, Value: []byte("x")}}, nil))
+				t.Feed(pl.chunk(conns.Frame(int(codes.GET), tok, message.Options{{ID: message.URIPath, Value: []byte("x")}}, nil)))
 			}
 		case "pong":
 			scan()
 			if e.G >= 1 && e.G <= len(pingToks) {
-				t.Feed(conns.Frame(int(codes.Pong), pingToks[e.G-1], nil, nil))
+				t.Feed(pl.chunk(conns.Frame(int(codes.Pong), pingToks[e.G-1], nil, nil)))
 			}
 		case "tick":
 			t.CC.CheckExpirations(clock())
